@@ -396,7 +396,10 @@ func verifNoDup(mn *verifMenu, l []string) {
 			continue
 		}
 		for j := 0; j < i; j++ {
-			vf.Assume(verifStripLog.ReplaceAllString(l[i], "") != verifStripLog.ReplaceAllString(l[j], ""))
+			// compared in parsed form: 'eq 80' and 'eq www' are the same entry
+			pi := verifStripLog.ReplaceAllString(vf.SelectString(vf.LookupString(mn.orig, l[i]), mn.parsed), "")
+			pj := verifStripLog.ReplaceAllString(vf.SelectString(vf.LookupString(mn.orig, l[j]), mn.parsed), "")
+			vf.Assume(pi != pj)
 		}
 	}
 }
